@@ -894,4 +894,36 @@ example : frameIsPyteal "c15_main.py" = false ∧ frameIsPyteal "pyteal/ast/int.
     keepIdx ["pyteal/stack_frame.py", "pyteal/ast/expr.py", "pyteal/ast/int.py",
              "c15_mod0.py", "c15_main.py"] = some 3 := by decide
 
+
+/-! ## injectivity corollaries: distinct associations never share an encoding -/
+
+/-- two integer lists with the same Base64-VLQ text are the same list -/
+theorem vlq_injective (vs ws : List Int) (h : vlqEncode vs = vlqEncode ws) : vs = ws := by
+  have h1 := vlq_roundtrip vs
+  rw [h, vlq_roundtrip ws] at h1
+  exact (Except.ok.inj h1).symm
+
+/-- two well-formed tables that serialise to the same Revision-3 JSON are the same table: the JSON
+    loses nothing of the line / column / source / name associations -/
+theorem r3_injective (t u : Table) (ht : t.wf = true) (hu : u.wf = true)
+    (h : t.toJson = u.toJson) : t = u := by
+  obtain ⟨j, hj, hdj⟩ := r3_roundtrip t ht
+  obtain ⟨k, hk, hdk⟩ := r3_roundtrip u hu
+  rw [hj, hk] at h
+  have hjk : j = k := Except.ok.inj h
+  subst hjk
+  rw [hdj] at hdk
+  exact Except.ok.inj hdk
+
+/-- the same for map objects -/
+theorem r3map_injective (m n : R3Map) (hm : m.wf = true) (hn : n.wf = true)
+    (h : m.toJson = n.toJson) : m = n := by
+  obtain ⟨j, hj, hdj⟩ := r3map_roundtrip m hm
+  obtain ⟨k, hk, hdk⟩ := r3map_roundtrip n hn
+  rw [hj, hk] at h
+  have hjk : j = k := Except.ok.inj h
+  subst hjk
+  rw [hdj] at hdk
+  exact Except.ok.inj hdk
+
 end PyTealV.Proofs.C15
